@@ -3,8 +3,11 @@ L5 model: link hypergraph, `discover_links` literal loop, LinkManager / DataColl
 bookkeeping.  Mirrors `glue/core/link_manager.py` (accessible_links, discover_links,
 LinkManager.add_link / remove_link / _component_removed / _data_removed /
 update_externally_derivable_components), `glue/core/data_collection.py` (_sync_link_manager,
-delay_link_manager_update, append, remove) and the lazy evaluation of the installed
-`DerivedComponent`s through `Data.get_data` / `ComponentLink.compute`.  Core Lean only.
+delay_link_manager_update, append, remove), `glue/core/data.py` (internal derived components:
+add_component_link, remove_component / _remove_component / _removed_derived_that_depend_on — the
+recursive cascade, every removal announced —, update_id, `links`) and the lazy evaluation of the
+own and of the installed `DerivedComponent`s through `Data.get_data` / `ComponentLink.compute`.
+Core Lean only.
 -/
 namespace GlueVerif.Links
 
